@@ -1,0 +1,27 @@
+//go:build verif
+
+// Contracts for package upsidedown: the rows a document's deletion removes (read by /verif/gocv;
+// comment-only effect with the verif tag off).
+//
+// C01 (upsidedown): deleting (or replacing) a document must remove every row the back index
+// records for it. deleteSingle appends to the rows to delete: one term frequency row per recorded
+// term, one stored row per recorded stored entry - for that entry's field AND array positions (the
+// key of a stored row contains both) - and the back index row itself.
+
+package upsidedown
+
+//@ spec asStored(r UpsideDownCouchRow) *StoredRow = r.(*StoredRow)
+//@ spec storedRowFor(r UpsideDownCouchRow, se *BackIndexStoreEntry, nid int) bool = typeis(r, *StoredRow) && asStored(r) != nil && asStored(r).field == uint16(*se.Field) && asStored(r).arrayPositions == se.ArrayPositions && len(asStored(r).doc) == nid
+
+//@ func UpsideDownCouch.deleteSingle
+//@   props C01
+//@   mode int
+//@   requires backIndexRow != nil && forall(k, 0, len(backIndexRow.termsEntries), backIndexRow.termsEntries[k] != nil && backIndexRow.termsEntries[k].Field != nil && *backIndexRow.termsEntries[k].Field < 65536) && forall(k, 0, len(backIndexRow.storedEntries), backIndexRow.storedEntries[k] != nil && backIndexRow.storedEntries[k].Field != nil && *backIndexRow.storedEntries[k].Field < 65536)
+// (field numbers are 16 bit; append may write into the caller's spare capacity)
+//@   modifies deleteRows[*]
+//@   ensures len(result) >= old(len(deleteRows)) + len(backIndexRow.storedEntries) + 1 && result[len(result)-1] == backIndexRow
+//@   ensures forall(k, 0, len(backIndexRow.storedEntries), storedRowFor(result[len(result)-1-len(backIndexRow.storedEntries)+k], backIndexRow.storedEntries[k], len(id)))
+//@   loop 0: invariant len(deleteRows) >= old(len(deleteRows)) && (cap(deleteRows) == 0 || base(deleteRows) == old(base(deleteRows)) || fresh(deleteRows))
+//@   loop 1: invariant len(deleteRows) >= old(len(deleteRows)) && (cap(deleteRows) == 0 || base(deleteRows) == old(base(deleteRows)) || fresh(deleteRows))
+//@   loop 2: invariant len(deleteRows) >= old(len(deleteRows)) + iter && (cap(deleteRows) == 0 || base(deleteRows) == old(base(deleteRows)) || fresh(deleteRows))
+//@   loop 2: invariant forall(k, 0, iter, storedRowFor(deleteRows[len(deleteRows)-iter+k], backIndexRow.storedEntries[k], len(id)))
